@@ -434,3 +434,121 @@ class get_date_from_timestamp:
 
 
 CONTRACTS += [get_date_from_timestamp]
+
+
+class freshness_tz:
+    """FreshnessDateDataParser.parse, timezone branch (C12 for relative dates; C04's "the base is the
+    current instant expressed in TIMEZONE"): the base is RELATIVE_BASE read in the TIMEZONE zone (or the
+    clock instant expressed in it), the shift is calendar arithmetic on that zone's wall clock, and the
+    result denotes the instant at which the zone shows the shifted wall clock, re-expressed per
+    TO_TIMEZONE; awareness per setting."""
+
+    name = "freshness.FreshnessDateDataParser.parse/tz"
+    func = "dateparser.freshness_date_parser.FreshnessDateDataParser.parse"
+    props = ["C12", "C04"]
+
+    @staticmethod
+    def cases():
+        out = []
+        for c in TZ_SETTINGS:
+            for base in ("naive", "clock"):
+                for unit in ("day", "hour"):
+                    if unit == "hour" and (c["TO"] == "static" or c["AWARE"] is False):
+                        continue
+                    out.append(dict(c, base=base, unit=unit, dir="ago" if unit == "day" else "in"))
+        return out
+
+    @staticmethod
+    def setup(inp, case):
+        import dateparser.freshness_date_parser as F
+        from pyvc.harness import build
+
+        env = Env(inp, _kinds(case))
+        kw = {}
+        b = None
+        clock_utc = None
+        if case["base"] == "naive":
+            b = inp.datetime("b", lo_year=10 if inp.symbolic else 1950,
+                             hi_year=9990 if inp.symbolic else 2037)
+            kw["RELATIVE_BASE"] = b
+        else:
+            clock_utc = inp.datetime("clock", lo_year=10 if inp.symbolic else 1971,
+                                     hi_year=9990 if inp.symbolic else 2037)
+            _install_clock(inp, clock_utc)
+        st = _tz_settings(inp, case, env, **kw)
+        tpl = (["in "] if case["dir"] == "in" else []) + [("n", 1), " ", case["unit"]] + (
+            [" ago"] if case["dir"] == "ago" else [])
+        s, f = build(inp, tpl)
+        F.pop_tz_offset_from_string = lambda string, as_offset=True: (string, None)
+        return F.freshness_date_parser.parse, (s, st), {}, dict(env=env, b=b, clock=clock_utc, f=f)
+
+    @staticmethod
+    def post(case, g, out):
+        env, f = g["env"], g["f"]
+        if not out.ok:
+            return {"no-exception": False}
+        r, period = out.value
+        if r is None:
+            return {"no-exception": True, "recognised": False}
+        zone0 = env.zone("local" if case["TIMEZONE"] == "local" else "ZoneA")
+        if case["base"] == "naive":
+            w0 = _wall_us(g["b"])
+        else:
+            w0 = env.wall_at(zone0, _wall_us(g["clock"]))  # the clock instant expressed in TIMEZONE
+        sign = 1 if case["dir"] == "in" else -1
+        step = DAY if case["unit"] == "day" else 3600 * US
+        w1 = w0 + sign * f["n"] * step
+        # calendar arithmetic on the base's wall clock (C04), for every unit
+        inst = env.instant(zone0, _as_naive(w1))
+        final = zone0 if case["TO"] == "unset" else env.zone("ZoneB")
+        wall = env.wall_at(final, inst)
+        aware = case["AWARE"] is True
+        res = {
+            "no-exception": True,
+            "recognised": True,
+            "wall-clock-is-the-shifted-instant-in-the-final-zone": _wall_us(r) == wall,
+            "awareness-follows-setting": (r.tzinfo is not None) == aware,
+        }
+        if r.tzinfo is not None:
+            res["aware-result-denotes-that-instant"] = _result_instant(r) == inst
+        return res
+
+
+def _as_naive(wall_us):
+    """a naive datetime-like carrying a wall clock (dual use)"""
+    if isinstance(wall_us, int):
+        base = _dt.datetime(1, 1, 1)
+        return base + _dt.timedelta(microseconds=wall_us - DAY)
+    from pyvc.cal import SDateTime
+
+    return SDateTime.from_wall(wall_us)
+
+
+def _install_clock(inp, clock_utc):
+    """datetime.now(tz) = the one named instant `clock_utc`, expressed in tz"""
+    if inp.symbolic:
+        from pyvc import instrument, zone
+        from pyvc.cal import with_tz
+
+        aware = with_tz(clock_utc, _dt.timezone.utc)
+
+        def now(tz=None):
+            if tz is None:
+                raise instrument.Unsupported("datetime.now() without tz in the relative parser")
+            return zone.astimezone(aware, tz)
+
+        instrument.ALWAYS[(_dt.datetime, "now")] = now
+        return
+    fixed = clock_utc.replace(tzinfo=_dt.timezone.utc)
+
+    class FixedClock(_dt.datetime):
+        @classmethod
+        def now(cls, tz=None):
+            return fixed.astimezone(tz) if tz is not None else fixed.replace(tzinfo=None)
+
+    import dateparser.freshness_date_parser as F
+
+    F.datetime = FixedClock
+
+
+CONTRACTS += [freshness_tz]
